@@ -19,7 +19,8 @@ FUNCTIONS = ["yamlpath.yamlpath:YAMLPath.__init__", "YAMLPath.original (setter)"
              "YAMLPath._expand_splats", "YAMLPath.escaped", "YAMLPath.unescaped", "YAMLPath.__str__",
              "YAMLPath._stringify_yamlpath_segments", "YAMLPath.ensure_escaped", "SearchTerms.__str__",
              "SearchKeywordTerms.__str__", "CollectorTerms.__str__", "PathSearchKeywords.is_keyword"]
-STUBS = ["int(<symbolic str>) is over-approximated by 'raises ValueError or returns an arbitrary int' (vf/chint.py, C14 only)",
+STUBS = ["int(<symbolic str>) is abstracted to 'raises ValueError or returns an arbitrary int in [-99, 99]' (vf/chint.py, C14 only; "
+         "the parser only stores and formats that value)",
          "the four enum-typed parser locals enter the step condition as lazily decoded member indexes (vf/astcut.py)"]
 OUTSIDE = ["whole-parse claim: texts longer than the stated length; beyond it the claim rests on the inductive step "
            "(arbitrary parser state within |segment_id|<=3, |search_attr|<=1, stack depth<=2) plus the structural "
